@@ -1,6 +1,6 @@
 CONSTANTS
   N = 4
-  MaxKids = 2
+  MaxKids = 1
   MaxEdges = 4
   Kinds = {"ptr", "typedef"}
   AllowDecl = TRUE
@@ -8,6 +8,7 @@ CONSTANTS
   OrderClass = "any"
   CycleCheck = "pair"
   Pass2Cancel = "fresh"
+  Outermost = "flush"
   PropagateDespiteCycle = FALSE
 SPECIFICATION Spec
 CHECK_DEADLOCK FALSE
